@@ -23,6 +23,18 @@ pub fn check(bc: &BuildCase, fam: &str, obs: &mut Obs) -> Result<(), Fail> {
             }
         }
     }
+    // ninth build: mask left automatic ("un-masking ANY symbol with the pattern named in its format information ...")
+    {
+        let mut c = bc.clone();
+        c.opts.mask = None;
+        match do_build(&c)? {
+            Ok(b) => built.push(b),
+            Err(e) => {
+                obs.label(&format!("no_symbol:{:?}", e));
+                return Ok(());
+            }
+        }
+    }
     let n = built[0].size();
     for (k, b) in built.iter().enumerate() {
         if b.size() != n {
@@ -74,7 +86,7 @@ pub fn check(bc: &BuildCase, fam: &str, obs: &mut Obs) -> Result<(), Fail> {
     }
     // equivalently: un-masking each symbol with the pattern named in ITS format information gives one matrix
     let mut unmasked: Vec<Vec<bool>> = Vec::new();
-    for k in 0..8usize {
+    for k in 0..9usize {
         let mut w = 0u16;
         for i in 0..15 {
             let (r, c) = g.format_pos[0][i];
@@ -87,19 +99,22 @@ pub fn check(bc: &BuildCase, fam: &str, obs: &mut Obs) -> Result<(), Fail> {
             Some(m) => m,
             None => return fail("format_unreadable", format!("v{} forced mask {}: format information unreadable ({:?})", v, k, bc)),
         };
+        if k == 8 {
+            obs.label(&format!("auto_mask_chose:{}", named));
+        }
         let mut u = vals[k].clone();
         for &(r, c) in &g.order {
             u[r * n + c] ^= mask_cond(named, r, c);
         }
         unmasked.push(u);
     }
-    for k in 1..8usize {
+    for k in 1..9usize {
         for &(r, c) in &g.order {
             if unmasked[k][r * n + c] != unmasked[0][r * n + c] {
                 return fail(
-                    "named_mask_not_applied",
+                    if k == 8 { "named_mask_not_applied:auto" } else { "named_mask_not_applied" },
                     format!(
-                        "v{}: un-masking the forced-mask-{} symbol with the mask named in its format information differs from the un-masked mask-0 symbol at (row {}, col {}) ({:?})",
+                        "v{}: un-masking the forced-mask-{} (8 = automatic) symbol with the mask named in its format information differs from the un-masked mask-0 symbol at (row {}, col {}) ({:?})",
                         v, k, r, c, bc
                     ),
                 );
@@ -143,6 +158,25 @@ pub fn run(e: &'static Engine) {
                 jc.run_prop(level as u64 + 1, &strat, per, |(c, _)| c.to_json(), |(c, fam), o| check(c, fam, o));
             }));
         }
+    }
+    e.par(jobs);
+    // automatic-mask sweep in the versions where exact penalty ties occur, plus steered matrices
+    let total: u32 = e.tier.pick(4800, 96000);
+    let shards = e.tier.pick(32u32, 96);
+    let mut jobs: Vec<Job> = Vec::new();
+    for _ in 0..shards {
+        jobs.push(Box::new(move |jc: &mut JobCtx| {
+            let strat = crate::gens::auto_mask_small();
+            jc.run_prop(2 << 20, &strat, total / shards, |(c, _, _)| c.to_json(), |(c, fam, _), o| {
+                o.label("part:auto_mask_small");
+                check(c, fam, o)
+            });
+            let strat = crate::gens::steered_case(1, 40, true);
+            jc.run_prop(3 << 20, &strat, total / shards / 16, |(c, _)| c.to_json(), |(c, fam), o| {
+                o.label("part:steered");
+                check(c, fam, o)
+            });
+        }));
     }
     e.par(jobs);
     e.put("cells_total", json!(160));
